@@ -100,6 +100,8 @@ def _plan(draw, max_rows):
             c["vals"] = [c["vals"][r] for r in order]
         plan["presort"] = dirs
         plan["frame"].pop("via", None)
+    if draw(st.integers(0, 3)) == 0:
+        plan["stale_mark"] = True
     if n and n <= 40 and draw(st.integers(0, 3)) == 0:
         edits = []
         for _ in range(draw(st.integers(1, 3))):
@@ -285,7 +287,19 @@ def _check_once(plan, data, ctx):
         raise Violation("count left the receiver grouped")
 
     # ---- split ----
-    parts = ctx.call("split", lambda: data.split(*by))
+    if plan.get("stale_mark") and n:
+        # the frame object was marked by group_by on another column earlier: explicit arguments are what counts
+        data.group_by("xi")
+        ctx.cls("split_and_count_on_a_frame_marked_by_another_group_by")
+        try:
+            cnt2 = ctx.call("count on a marked frame", lambda: data.count(*by))
+            if _ints(cnt2["n"]) != [len(rows) for _, rows in gs]:
+                raise Violation("count(*by) on a frame marked by another group_by differs", got=_ints(cnt2["n"]))
+            parts = ctx.call("split", lambda: data.split(*by))
+        finally:
+            data._group_colnames = ()
+    else:
+        parts = ctx.call("split", lambda: data.split(*by))
     parts = [_ints(p) for p in parts]
     flat = [r for p in parts for r in p]
     if n > 0:
